@@ -23,7 +23,7 @@ func init() {
 			"(enumerated from go/types) is assigned its zero value with no later write, and the executor does not retain the pooled pointer; (ast-immutable) no gqlgen or generated function stores into a field or element " +
 			"of a gqlparser ast node it did not allocate, and CollectedField.Selections is only ever extended from itself (never aliased to an AST slice whose spare capacity an append would overwrite); " +
 			"(no-global-writes) nothing reachable from a request root stores to a package-level variable of the gqlgen module or of gqlparser; (cache-key) parseQuery and its gqlgen callees never read variables or " +
-			"the operation name, and the query cache is keyed by exactly the query-text parameter.",
+			"the operation name, and the query cache is keyed by exactly the query-text parameter. (config-immutable) no value read from a field of a Transport.Do receiver is written through (map update, element store, field store), followed through same-module calls.",
 		NotDecided:  "equality with a fresh-server oracle; user extensions and resolvers; contents of the APQ cache (C15)",
 		Assumptions: []string{"the reachability rules use the CHA call graph (over-approximation) restricted to gqlgen's runtime packages; user code is opaque"},
 	})
